@@ -228,4 +228,8 @@ impl From<GetSigningKeyResponse> for SigV4AuthenticatorResponse {
     ensures r.s_principal() == request.s_principal() && r.s_session_data() == request.s_session_data(), //# C15 name=principal_and_session_data_pass_through
 //@ end
 }
+/// helper of the two window error messages (the text is not verified; evaluating it must not panic)
+//@ fn auth.rs duration_to_string
+//@ props C08
+//@ end
 } // mod auth_m
